@@ -64,6 +64,9 @@ PLANS = {
     "two-components": ([("ns", 9, M.SOC), ("ns", 8, M.ACTIVE_POWER), ("ns", 9, M.CAPACITY)], {9: 3, 8: 2}),
     "all-categories": ([("ns", 2, M.CURRENT_PHASE_1), ("ns", 8, M.ACTIVE_POWER_INCLUSION_UPPER_BOUND), ("ns", 9, M.SOC), ("ns", 12, M.ACTIVE_POWER)],
                        {2: 1, 8: 1, 9: 1, 12: 1}),
+    # the same request repeated while an earlier request of another namespace exists for the same metric
+    "dup-namespaces": ([("ns", 2, M.ACTIVE_POWER), ("ns2", 2, M.ACTIVE_POWER), ("ns2", 2, M.ACTIVE_POWER), ("ns3", 2, M.ACTIVE_POWER),
+                        ("ns2", 2, M.ACTIVE_POWER)], {2: 3}),
     "meter-long": ([("ns", 2, M.ACTIVE_POWER), ("ns", 2, M.FREQUENCY), ("ns2", 2, M.ACTIVE_POWER), ("ns3", 2, M.REACTIVE_POWER)], {2: 5}),
 }
 
@@ -310,9 +313,9 @@ def run(tier: str, seed: int, workers: int):
     from ..explore import pmap_acc
 
     if tier == "quick":
-        plans = [("meter", 1), ("meter-short", 1), ("two-components", 1), ("all-categories", 0)]
+        plans = [("meter", 1), ("meter-short", 1), ("two-components", 1), ("all-categories", 0), ("dup-namespaces", 1)]
     else:
-        plans = [("meter", 2), ("meter-short", 2), ("two-components", 2), ("all-categories", 1), ("meter-long", 1)]
+        plans = [("meter", 2), ("meter-short", 2), ("two-components", 2), ("all-categories", 1), ("meter-long", 1), ("dup-namespaces", 2)]
     determinism_selfcheck(make_scenario("meter-short"))
     acc = Acc()
     from ..core import Violation
